@@ -1,4 +1,5 @@
 """C12 - manifest builders file each entry exactly where the arguments say"""
+import re
 import core
 from suites import ops_manifests as S
 
@@ -48,7 +49,10 @@ def run(chk):
                             return "add%r succeeded although the category %r disagrees with the RPM's own arch %r" % (tuple(op), op[5], own)
                     if kind == "rpms" and isinstance(op[2], str):
                         # documented layout: source package's canonical name -> RPM's canonical name (directory and one '.rpm' dropped)
-                        canon = lambda n: (n[:-4] if n.endswith(".rpm") else n).rsplit("/", 1)[-1]
+                        def canon(n):
+                            n = (n[:-4] if n.endswith(".rpm") else n).rsplit("/", 1)[-1]
+                            m = re.match(r"^(.*)-(\d+):([^-]*)-([^-]*)$", n)         # name-epoch:version-release.arch, epoch as a number
+                            return "%s-%d:%s-%s" % (m.group(1), int(m.group(2)), m.group(3), m.group(4)) if m else n
                         skey, rkey = canon(op[6] or op[2]), canon(op[2])
                         ent = new[op[0]][op[1]].get(skey, {}).get(rkey)
                         if not ent or ent.get("path") != op[3]:
